@@ -25,6 +25,20 @@ def snapshot(work):
     return out
 
 
+SIBLINGS = ["p%d.tmp", "p%d.tdf.tmp", "p%d.bak", "p%d.tdf~", ".p%d.tdf.swp", "p%d", "p%d.new", "p%d.tdf.lock"]
+
+
+def neighbours(work):
+    """every file of the directory that is not one of the four paths: name -> bytes"""
+    mine = {os.path.basename(fname(work, p)) for p in PATHS}
+    out = {}
+    for n in sorted(os.listdir(work)):
+        f = os.path.join(work, n)
+        if n not in mine and os.path.isfile(f):
+            out[n] = open(f, "rb").read()
+    return out
+
+
 def put(work, p, data):
     open(fname(work, p), "wb").write(data)
 
@@ -113,9 +127,13 @@ def new_file_violation(data, now):
 
 def scenario(chk, rng, work, idx):
     """one scenario: prepare targets, run a call sequence, compare + judge after every call"""
+    for n in os.listdir(work):
+        if os.path.isfile(os.path.join(work, n)):
+            os.unlink(os.path.join(work, n))
+    # other people's files next to the targets, named like them (what a temporary / backup / lock file would be called)
     for p in PATHS:
-        if os.path.exists(fname(work, p)):
-            os.unlink(fname(work, p))
+        for pat in rng.sample(SIBLINGS, rng.choice((0, 1, 3, len(SIBLINGS)))):
+            open(os.path.join(work, pat % p), "wb").write(b"someone else's file " + (pat % p).encode())
     kinds = {}
     for p in PATHS:
         k = rng.choice(["absent", "absent", "tdf", "tdf_hist", "nontdf", "empty"])
@@ -142,6 +160,7 @@ def scenario(chk, rng, work, idx):
     desc = {"targets": kinds, "calls": [list(c) for c in calls], "seed": [chk.seed, idx]}
     for ci, call in enumerate(calls):
         before = snapshot(work)
+        nb_before = neighbours(work)
         bd = fs_dict(before)
         exists = {p: p in bd for p in PATHS}
         if call[0] == "mutate":
@@ -158,11 +177,17 @@ def scenario(chk, rng, work, idx):
                                       "ok" if rc == 0 else "refused"))
         what = "%s after %r on targets %r" % (call, calls[:ci], kinds)
         # ---- the oracle, on the implementation alone
-        found = None
+        found = frame = None
         others = [p for p in PATHS if p != (call[2] if call[0] == "copy" else call[1])]
         for p in others:
             if bd.get(p) != ad.get(p):
-                found = "path %d changed although the call was about another path" % p
+                frame = "path %d changed although the call was about another path" % p
+        nb_after = neighbours(work)
+        for n in sorted(set(nb_before) | set(nb_after)):
+            if nb_before.get(n) != nb_after.get(n):
+                frame = "the neighbouring file %r %s although the call was about %s" % (
+                    n, "disappeared" if n not in nb_after else "appeared" if n not in nb_before else "changed",
+                    os.path.basename(fname(work, call[2] if call[0] == "copy" else call[1])))
         if call[0] == "new":
             p = call[1]
             if exists[p]:
@@ -200,6 +225,7 @@ def scenario(chk, rng, work, idx):
         elif call[0] == "mutate":
             if rc == 0 and ad.get(call[1]) == bd.get(call[1]):
                 found = None      # nothing to say
+        found = frame or found
         if found:
             chk.violation("C17: %s [%s]" % (found, what), dict(desc, step=ci), True)
             return
@@ -222,7 +248,7 @@ def scenario(chk, rng, work, idx):
 
 
 def run(chk):
-    chk.rule = ("scenarios over 4 paths, each initially absent / a fresh TDF / a TDF reached by a 1-3 call history / a non-TDF file "
+    chk.rule = ("scenarios over 4 paths in a directory that also holds other files named like them (.tmp, .bak, ~, .swp, .lock, no suffix), each path initially absent / a fresh TDF / a TDF reached by a 1-3 call history / a non-TDF file "
                 "(1..5000 random bytes) / an empty file; 2-5 calls from {Tdf.new, copy, open+enter, a later mutation of any TDF "
                 "path}; after every call: bytes of every path before/after, exception class; oracle: the property's clauses "
                 "on the implementation alone; correspondence: Fs.v fs_new / fs_copy / fs_open on the same file-system state; "
@@ -284,7 +310,9 @@ def long_lived(chk, rng, work):
         junk = bytes(rng.getrandbits(8) for _ in range(16)) + open(fname(work, 1), "rb").read()[16:]
         put(work, 1, junk if j % 2 else b"not a tdf file at all" * 10)
         got = []
-        for how in ("with", "has_events", "blocks"):
+        order = ["with", "has_events", "blocks", "has_events", "blocks"]
+        rng.shuffle(order)
+        for how in order:               # the refusal of one call must not make the next one yield stale data
             try:
                 if how == "with":
                     with t:
@@ -295,10 +323,6 @@ def long_lived(chk, rng, work):
                     got.append((how, len(t.blocks)))
             except Exception:
                 pass
-            h = getattr(t, "handler", None)
-            if h is not None and not h.closed:
-                h.close()
-            t._inside_context = False
         if got:
             chk.violation("C17: a file that no longer starts with the TDF signature was opened through an existing object and yielded %r" % (got,),
                           {"scenario": "open once, file replaced by non-TDF bytes, open again through the same object"}, True)
